@@ -5,13 +5,13 @@ EXPLANATION = ("Bounded symbolic checking (engine S, REAL mode) of RescaledHmmLi
                "table are supplied by the harness; transition probabilities and emissions are solver variables (built from positive unknowns, so positivity of every scale is syntactic), break points, chunk size and the order of "
                "updates/queries are forked. Log-likelihoods are compared through their exp-view: the runtime carries out exp(sum c_k log a_k) = prod a_k^c_k exactly and compares log-space values through products, so the "
                "log-sum algorithm stays inside rational functions. The oracle is the sum over all hidden paths written in the harness.")
-FUNCTIONS = ["RescaledHmmLikelihood::{ctor,computeForward_,computeBackward_,setBreakPoints,fireParameterChanged,getLogLikelihood,getValue,getHiddenStatesPosteriorProbabilities,getHiddenStatesPosteriorProbabilitiesForASite,getLikelihoodForASite,getLikelihoodForEachSite}",
+FUNCTIONS = ["AbstractHmmLikelihood::{getFirstOrderDerivative,getSecondOrderDerivative}", "RescaledHmmLikelihood::{computeDForward_,computeD2Forward_}", "LogsumHmmLikelihood::{computeDForward_,computeD2Forward_}", "RescaledHmmLikelihood::{ctor,computeForward_,computeBackward_,setBreakPoints,fireParameterChanged,getLogLikelihood,getValue,getHiddenStatesPosteriorProbabilities,getHiddenStatesPosteriorProbabilitiesForASite,getLikelihoodForASite,getLikelihoodForEachSite}",
              "LowMemoryRescaledHmmLikelihood::{ctor,computeForward_ (every chunk size),setBreakPoints,fireParameterChanged,getLogLikelihood}", "LogsumHmmLikelihood::{ctor,computeForward_,computeBackward_,posterior and per-site queries}", "NumTools::logsum",
              "AutoCorrelationTransitionMatrix::{getPij,Pij,getEquilibriumFrequencies,fireParameterChanged}", "FullHmmTransitionMatrix::{getPij,getEquilibriumFrequencies,fireParameterChanged} (concrete parameter values)"]
-BOUNDS = ("2 hidden states, 1-2 sites (low-memory algorithm alone: also 3 sites), every subset of break points, chunk sizes 1..sites+1, all positive transition weights and emissions (reals); one parameter update (an emission entry) after a full round of queries, in both update orders; "
+BOUNDS = ("2 hidden states, 1-2 sites (low-memory algorithm alone: also 3 sites), every subset of break points, chunk sizes 1..sites+1, all positive transition weights and emissions (reals); one parameter update (an emission entry) after a full round of queries, in both update orders; first and second derivatives w.r.t. an emission parameter acting on one or two sites, in either query order (log-sum algorithm: without break points); "
           "built-in models: 2-3 states, autocorrelation parameters symbolic in (0.01,0.99) with the matrix/equilibrium queries in either order and before/after the update; full model at two concrete parameter sets")
 OUTSIDE = ["sequences of 3 or more sites and 3 or more hidden states (measured: the rational functions leave the solver's reach - single configurations of 3 sites take 3 min with over-approximated branches)", "zero transition or emission entries (log-space code takes log 0)",
-           "first and second derivatives of the log-likelihood", "IEEE rounding / underflow for emissions down to 1e-200 (exact real arithmetic)", "stationarity of the full model's equilibrium vector for symbolic parameters (it is row 0 of P^256)"]
+           "IEEE rounding / underflow for emissions down to 1e-200 (exact real arithmetic)", "stationarity of the full model's equilibrium vector for symbolic parameters (it is row 0 of P^256)"]
 ASSUMPTIONS = BASE_ASSUMPTIONS + ["axioms listed in coverage.axioms (exp/log identities on positive arguments)"]
 LEVEL_TEXT = ("Bounded symbolic checking: for every configuration within the bound, the likelihood of each algorithm equals the path-enumeration polynomial for all positive transition/emission values, posteriors are non-negative, sum to one and "
               "match enumeration, per-site likelihoods are consistent, answers after an update are those of the new parameter values; the built-in autocorrelation model is row-stochastic with a genuine stationary vector for all parameters.")
@@ -23,5 +23,7 @@ JOBS = [
     Job("lowmemory-3sites", "C13.cpp", ["HLO=0", "HHI=0", "LMAX=3", "LOWMEM_ONLY"], fix="sites=3 break1=0 break2=0", env=E, budget_s=400, tiers=("quick",), desc="low-memory algorithm alone on 3 sites without break points, every chunk size (a partly filled last chunk after a flush needs 3 sites)"),
     Job("lowmemory-3sites-all", "C13.cpp", ["HLO=0", "HHI=0", "LMAX=3", "LOWMEM_ONLY"], fix="sites=3", env=E, budget_s=1800, tiers=("thorough",), desc="low-memory algorithm alone on 3 sites, every break-point subset and chunk size"),
     Job("logsum", "C13.cpp", ["HLO=1", "HHI=1", "LMAX=2", "PARAM_AB"], env=E, budget_s=300, desc="log-sum algorithm: likelihood = path enumeration, posteriors, per-site likelihoods (every ordering of the log-space operands is a path)"),
+    Job("derivatives-rescaled", "C13.cpp", ["HLO=3", "HHI=3", "LMAX=2"], fix="algorithm=0", env=E, budget_s=500, replay_tol=1e-7, desc="rescaled algorithm: first and second derivative of the log-likelihood w.r.t. an emission parameter acting on one or two sites = derivatives of the path-enumeration polynomial; with and without a break point; either query order"),
+    Job("derivatives-logsum", "C13.cpp", ["HLO=3", "HHI=3", "LMAX=2", "PARAM_AB"], fix="algorithm=1 break1=0", env=E, budget_s=300, replay_tol=1e-7, desc="log-sum algorithm: the same without break points (with a break point the log-space orderings exceed the budget: measured)"),
     Job("transition-models", "C13.cpp", ["HLO=2", "HHI=2", "LMAX=2"], env=E, budget_s=300, desc="built-in transition models: row-stochastic, equilibrium vector sums to one and is stationary, independent of the order of earlier queries"),
 ]
